@@ -273,6 +273,8 @@ class Interp:
     def set_item(self, base, slice_node, v, node):
         ctx = self.ctx
         b = ctx.deref(base)
+        if hasattr(b, "setitem"):
+            return b.setitem(self, self.eval(slice_node), v, node)
         if not isinstance(base, VRef):
             self.unsupported(node, "item store on non-cell")
         if isinstance(b, VDict):
@@ -293,6 +295,8 @@ class Interp:
     def del_item(self, base, slice_node, node):
         ctx = self.ctx
         b = ctx.deref(base)
+        if hasattr(b, "delitem"):
+            return b.delitem(self, self.eval(slice_node), node)
         if isinstance(b, VDict):
             k = ctx.deref(self.eval(slice_node))
             kt = _as_term(k)
@@ -1531,4 +1535,39 @@ def _b_str(ctx, it, args, kw):
     return VPy("<str>")
 
 
-BUILTINS = {"len": _b_len, "set": _b_set, "list": _b_list, "str": _b_str}
+class VRange(V):
+    def __init__(self, lo, hi):
+        self.lo, self.hi = lo, hi
+
+    def for_loop(self, it, s, k, spec, ex):
+        ctx = it.ctx
+        ex["$i"] = VInt(self.lo)
+        lo, hi = self.lo, self.hi
+
+        def guard_fn():
+            i = ex["$i"].t
+            ctx.assume(i >= lo)
+            return i < hi
+
+        def prologue():
+            it.assign(s.target, VInt(ex["$i"].t))
+
+        def epilogue():
+            ex["$i"] = VInt(z3.simplify(ex["$i"].t + 1))
+
+        it.run_cut_loop(s, k, spec, guard_fn, prologue, epilogue, lambda: None)
+
+
+def _b_range(ctx, it, args, kw):
+    vals = [ctx.deref(a) for a in args]
+    for v in vals:
+        if not isinstance(v, VInt):
+            raise Unsupported("range(%r)" % (v,))
+    if len(vals) == 1:
+        return VRange(z3.IntVal(0), vals[0].t)
+    if len(vals) == 2:
+        return VRange(vals[0].t, vals[1].t)
+    raise Unsupported("range with step")
+
+
+BUILTINS = {"range": _b_range, "len": _b_len, "set": _b_set, "list": _b_list, "str": _b_str}
